@@ -6,7 +6,7 @@
   "C02"
  ],
  "level": "B(3)",
- "tier": "wip",
+ "tier": "thorough",
  "harness": "h_ea_full",
  "includes": [
   "e2fsck",
@@ -31,7 +31,8 @@
   "everything is the real code (no callee contract, no ghost statement: the anchors expand to nothing); memmove = exact entry-wise copy"
  ],
  "native": false,
- "backend": "cadical"
+ "timeout": 900,
+ "no_cross_check": true
 }
 */
 /*
